@@ -2,9 +2,13 @@ package npm
 
 import (
 	"fmt"
+	"regexp"
 	"strconv"
 	"strings"
 )
+
+// partialVersionPattern matches a version written with only its major, or major and minor, component
+var partialVersionPattern = regexp.MustCompile(`^(0|[1-9]\d*)(\.(0|[1-9]\d*))?$`)
 
 // VersionRange represents an NPM version range with NPM-specific syntax support
 type VersionRange struct {
@@ -118,6 +122,11 @@ func parseSingleConstraint(c string) ([]*constraint, error) {
 			version := strings.TrimSpace(c[len(op):])
 			return []*constraint{{operator: op, version: version}}, nil
 		}
+	}
+
+	// A partial version is an x-range (1 means 1.x, 1.2 means 1.2.x)
+	if partialVersionPattern.MatchString(c) {
+		return parseXRange(c + ".x")
 	}
 
 	// Default to exact match
